@@ -146,6 +146,8 @@ func c12(r *Run) {
 		r.mustPassRet(r, "C12.R2:buffered-data-readable-after-close", "when enough bytes are buffered waitRead returns nil without consulting the closing state: data received before the peer closed stays readable", waitRead, first)
 	}
 
+	errMappingRules(r, "C12.R2")
+
 	// ---- R3 enumerated panic sources ---------------------------------------------------------------
 	nilGuardsFor(r, "C12.R3")
 	{
